@@ -172,8 +172,8 @@ def field (impl key : String) : String :=
 /-- why the loosely accepted tuple is not allowed -/
 def gapReason (_m : Model) (t : Tuple) : String :=
   match t.cond with
-  | some _ => "a conditioned tuple whose matching type restriction does not carry that condition (the condition was found on another restriction of the same user type): F14 condition checked against the user type only"
-  | none => "an unconditioned tuple whose matching type restriction requires a condition (an unconditioned plain restriction of the same user type let it through): F14 condition checked against the user type only"
+  | some _ => "a conditioned tuple whose matching type restriction does not carry that condition (the condition was found on another restriction of the same user type): F16 condition checked against the user type only"
+  | none => "an unconditioned tuple whose matching type restriction requires a condition (an unconditioned plain restriction of the same user type let it through): F16 condition checked against the user type only"
 
 def stepW (c : Case) (t : Tuple) (impl : String) : String :=
   let expected := expectW c t
@@ -203,26 +203,33 @@ def stepW (c : Case) (t : Tuple) (impl : String) : String :=
 
 def stepD (c : Case) (o r u : Bytes) (impl : String) : String :=
   let v := apiDelete o r u
-  let matched := (List.range c.seeds.length).filter (fun i =>
+  let idx := List.range c.seeds.length
+  let matched := idx.filter (fun i =>
     match c.seeds[i]? with
     | some (so, sr, su) => memMatch so sr su o r u
     | none => false)
+  -- the tuple the key names (at most one seed)
+  let named := idx.filter (fun i =>
+    match c.seeds[i]? with
+    | some (so, sr, su) => so == o && sr == r && su == u
+    | none => false)
+  let namedStr := "[" ++ ",".intercalate (named.map toString) ++ "]"
   let expected :=
     match v with
     | .error e => s!"D={e.name} removed=[] extra=0"
     | .ok _ =>
       if matched.isEmpty then "D=storage-invalid removed=[] extra=0"
       else s!"D=ok removed=[{",".intercalate (matched.map toString)}] extra=0"
-  if impl != expected then modelDiff expected
-  else
-    -- the property's side: an accepted delete removes at most the tuple it names
-    let named := (List.range c.seeds.length).filter (fun i =>
-      match c.seeds[i]? with
-      | some (so, sr, su) => so == o && sr == r && su == u
-      | none => false)
-    if matched != named then
-      specViol s!"a delete key that is not a tuple (empty object id, object or relation) was accepted and removed {matched.length} tuples it does not name: F15 deletes are only checked for a well-formed user and the memory backend matches empty fields as wildcards"
-    else ok ("d-" ++ cls v ++ (if matched.isEmpty then "-none" else "-one")) true
+  -- the property's side first, independently of the model: a delete removes at most the tuple it names, a rejected
+  -- delete removes nothing
+  let removed := field impl "removed"
+  let d := field impl "D"
+  if d == "ok" && removed != namedStr then
+    specViol s!"a delete key removed tuples it does not name (removed={removed}, named={namedStr}): F17 deletes are only checked for a well-formed user and the memory backend matches empty fields as wildcards"
+  else if d != "ok" && removed != "[]" then specViol "a rejected delete changed the store"
+  else if field impl "extra" != "0" then specViol "a delete changed tuples other than the seeded ones"
+  else if impl != expected then modelDiff expected
+  else ok ("d-" ++ (if d == "ok" then "removed-one" else d)) true
 
 def step (line impl : String) : String :=
   match parse line with
